@@ -120,18 +120,79 @@ func checkC05(c TreeCase, st *Stats) error {
 
 var propC05 = Register(Prop[TreeCase]{ID: "C05", Name: "C05", Check: checkC05})
 
+// deepTy builds a type nested depth levels deep from the generated constructor choices.
+func deepTy(t *rapid.T, depth int) *Ty {
+	cur := tyBuiltin(rapid.SampledFrom(builtinKinds).Draw(t, "leaf"))
+	for d := 0; d < depth; d++ {
+		switch k := rapid.IntRange(0, 3).Draw(t, "wrap"); {
+		case k == 0 && cur.K != "maybe":
+			cur = &Ty{K: "maybe", Elem: cur}
+		case k == 1:
+			cur = &Ty{K: "array", Elem: cur}
+		case k == 2:
+			cur = &Ty{K: "map", Elem: cur}
+		default:
+			cur = &Ty{K: "struct", Fields: []Field{{Name: "f", T: cur}}}
+		}
+	}
+	return cur
+}
+
+// genStressIface: shapes the ordinary generator reaches too rarely - very many members (with runs of
+// parameterless errors) and very deep types.
+func genStressIface(t *rapid.T) *Iface {
+	i := &Iface{Name: genInterfaceName(t), DocMode: "none"}
+	n := rapid.IntRange(20, 150).Draw(t, "nmembers")
+	bare := rapid.IntRange(0, 100).Draw(t, "barepct")
+	deepAt := rapid.IntRange(0, n-1).Draw(t, "deepAt")
+	for k := 0; k < n; k++ {
+		m := Member{Name: fmt.Sprintf("M%d", k), DocMode: "none"}
+		switch {
+		case k == deepAt:
+			m.Kind = "method"
+			m.In = &Ty{K: "struct", Fields: []Field{{Name: "deep", T: deepTy(t, rapid.IntRange(1, 120).Draw(t, "depth"))}}}
+			m.Out = &Ty{K: "struct"}
+		case rapid.IntRange(0, 99).Draw(t, "kind") < bare:
+			m.Kind = "error"
+		default:
+			switch rapid.IntRange(0, 2).Draw(t, "mk") {
+			case 0:
+				m.Kind, m.T = "type", &Ty{K: "struct", Fields: []Field{{Name: "a", T: deepTy(t, rapid.IntRange(0, 6).Draw(t, "d"))}}}
+			case 1:
+				m.Kind, m.T = "error", &Ty{K: "struct", Fields: []Field{{Name: "why", T: tyBuiltin("string")}}}
+			default:
+				m.Kind = "method"
+				m.In = &Ty{K: "struct", Fields: []Field{{Name: "a", T: deepTy(t, rapid.IntRange(0, 4).Draw(t, "d"))}}}
+				m.Out = &Ty{K: "struct"}
+			}
+		}
+		i.Members = append(i.Members, m)
+	}
+	return i
+}
+
 func genC05(t *rapid.T) TreeCase {
 	max := 6
-	if rapid.IntRange(0, 9).Draw(t, "big") == 0 {
+	big := rapid.IntRange(0, 19).Draw(t, "big")
+	if big <= 1 {
 		max = 30
 	}
-	i := GenIface(t, max)
+	var i *Iface
+	if big == 2 {
+		i = genStressIface(t)
+	} else {
+		i = GenIface(t, max)
+	}
 	eol := "\n"
 	if rapid.IntRange(0, 4).Draw(t, "crlfdocs") == 0 {
 		eol = "\r\n"
 	}
 	text := Render(i, RapidLayout{T: t, EOL: eol})
-	return TreeCase{Tree: *i, Text: text, Layout: "random"}
+	lay := "random"
+	if big == 2 {
+		lay = "random(stress:many-members/deep-types)"
+	}
+	return TreeCase{Tree: *i, Text: text, Layout: lay}
 }
 
 func TestC05Rapid(t *testing.T) {
